@@ -1,3 +1,66 @@
-From MW Require Import Num.
-Theorem placeholder : True. Proof. exact I. Qed.
-Print Assumptions placeholder.
+(*  C16 — Simulator bookkeeping is a faithful account of the data.
+   
+    PROVED:
+     * ordered split: train ++ test is the input, the test rows are exactly the LAST rows, the test indices are
+       their positions (for every test_size, also in binary64 where int(n*(1-test_size)) rounds);
+     * random split: train_test_split is an oracle; for every answer that enumerates the rows once, train and
+       test together are a permutation of the input;
+     * per arm, train and test counts add up to the total count (for every such split);
+     * the default evaluator credits every prediction to exactly one arm: the evaluated counts sum to the
+       number of test rows (predictions among the distinct arms);
+     * under exact arithmetic the sums add up as well (C06/C20 permutation invariance of the sum).
+    ..._partial: min <= mean <= max ordering and the numerical std are checked by direct recomputation on the
+    implementation's public attributes. *)
+From Coq Require Import List ZArith Bool Arith QArith Qcanon Permutation.
+From MW Require Import Num Assoc AssocFacts Rng Par CF CFInv CFClean CFForget CFSpec Matrix Lin Warm WarmInv Nbr NbrFacts NbrIndep LshFacts Clu Tree CellFacts Mab FacadeCF FacadeArms MoreFacts NumLaws CFAlg Sim Extra QcInst.
+Import ListNotations.
+
+Theorem C16_ordered_split_partition :
+  forall (R : Type) (N : Num R) (T : Type) (l : list T) (test_size : R),
+  let k := train_size N (length l) test_size in
+  firstn k l ++ skipn k l = l /\
+  length (skipn k l) = length (test_indices_ordered N (length l) test_size) /\
+  (forall d : T, pick (test_indices_ordered N (length l) test_size) l d = skipn k l) /\
+  (forall i : nat, In i (test_indices_ordered N (length l) test_size) <-> (k <= i < length l)%nat).
+Proof. exact @ordered_split_partition. Qed.
+Print Assumptions C16_ordered_split_partition.
+
+Theorem C16_random_split_is_permutation :
+  forall (T : Type) (l : list T) (d : T) (train_idx test_idx : list nat),
+  Permutation (train_idx ++ test_idx) (seq 0 (length l)) ->
+  Permutation (pick train_idx l d ++ pick test_idx l d) l.
+Proof. exact @random_split_is_partition. Qed.
+Print Assumptions C16_random_split_is_permutation.
+
+Theorem C16_train_plus_test_counts :
+  forall (R A : Type) (aeqb : A -> A -> bool) (rows train test : list (A * R)) (a : A),
+  Permutation (train ++ test) rows ->
+  (length (arm_rewards aeqb a (map fst train) (map snd train)) +
+   length (arm_rewards aeqb a (map fst test) (map snd test)))%nat =
+  length (arm_rewards aeqb a (map fst rows) (map snd rows)).
+Proof. exact @train_plus_test_counts. Qed.
+Print Assumptions C16_train_plus_test_counts.
+
+Theorem C16_evaluated_counts_sum_to_test_size :
+  forall (R A : Type) (N : Num R) (aeqb : A -> A -> bool),
+  (forall x y : A, aeqb x y = true <-> x = y) ->
+  forall (stat : stats -> R) (train : list (A * stats)) (nstats : list (option (list (A * stats))))
+    (arms preds decs : list A) (rewards : list R),
+  NoDup arms ->
+  (forall p : A, In p preds -> In p arms) ->
+  length preds = length decs ->
+  length preds = length rewards ->
+  length preds = length nstats ->
+  fold_right Init.Nat.add 0%nat
+    (map (fun a : A => length (arm_credits N aeqb stat train nstats preds decs rewards a)) arms) =
+  length preds.
+Proof. exact @evaluated_counts_sum_to_test_size. Qed.
+Print Assumptions C16_evaluated_counts_sum_to_test_size.
+
+Theorem C16_sums_invariant_under_row_order :
+  forall (R : Type) (N : Num R),
+  NumLaws N -> forall l l' : list R, Permutation l l' -> nsum N l = nsum N l'.
+Proof. exact @nsum_permutation. Qed.
+Print Assumptions C16_sums_invariant_under_row_order.
+
+
